@@ -235,7 +235,7 @@ fn literal_cases() -> Vec<Case> {
     {
         let mut fl: Vec<f64> = Vec::new();
         for k in -324i32..=308 {
-            for m in ["1", "2", "5", "9", "1.5", "9.999999999999999"] {
+            for m in ["1", "2", "5", "9", "1.5", "9.999999999999999", "9.5", "9.3", "1.1", "2.5", "7.5"] {
                 if let Ok(x) = format!("{m}e{k}").parse::<f64>() {
                     if x.is_finite() {
                         fl.push(x);
@@ -245,6 +245,15 @@ fn literal_cases() -> Vec<Case> {
         }
         for k in -1074i32..=1023 {
             fl.push(2f64.powi(k));
+        }
+        // around the integer type limits: between a power of two and the next power of ten a
+        // printer that goes through an integer type saturates or wraps
+        for k in [7, 8, 15, 16, 24, 31, 32, 52, 53, 54, 62, 63, 64, 65, 96, 127, 128] {
+            let p = 2f64.powi(k);
+            for mult in [0.97, 1.0, 1.03, 1.25, 1.5, 1.9] {
+                let x = p * mult;
+                fl.extend([x, f64::from_bits(x.to_bits() + 1), f64::from_bits(x.to_bits() - 1), x.floor(), x.floor() + 1.0]);
+            }
         }
         for x in [123456789012345680.0, 0.000001, 0.0000001, 1e15 + 0.5, 1e16 + 2.0, 4503599627370497.5, 0.1 + 0.2, 1.0 / 3.0, 2.0 / 3.0, 1e23, 8.41e21, 9.5e-5, 5e-5, 0.00001234] {
             fl.push(x);
